@@ -8,7 +8,7 @@ ID = "C01"
 COQ_IMPORT = "Corr.CNodes"
 COQ_CASE_TYPE = "g_case"
 COQ_CHECK = "g_check"
-THEOREMS = []
+THEOREMS = ["c01_reader_inverts_writer", "c01_read_is_from_dict_of_normalised", "c01_edges_preserved", "c01_strings_preserved", "c01_nothing_invented", "c01_ints_keep_value", "c01_int_sequences_keep_value"]
 PROOF_FILES = ["Proofs/SerialProofs.v"]
 RULE = ("random graphs over all 17 primitives + nested NIRGraph (depth 0..3, 0..7 nodes per level), edge multisets "
         "incl. cyclic, parallel, dangling, dotted; names from a unicode pool (multi-byte, spaces, newline, 300 chars, "
